@@ -21,7 +21,7 @@ if [ -f "$DIR/.built" ]; then echo "$DIR"; exit 0; fi
 for d in "$ROOT/$VARIANT-"*; do [ -d "$d" ] && [ "$d" != "$DIR" ] && rm -rf "$d"; done
 rm -rf "$DIR"; mkdir -p "$DIR"
 rsync -a --exclude='.git' --exclude='*.o' --exclude='*.lo' --exclude='*.la' --exclude='.libs' --exclude='.deps' \
-      --exclude='*.log' --exclude='*.trs' --exclude='autom4te.cache' --exclude='config.status' --exclude='config.log' --exclude='*.nc' \
+      --exclude='*.log' --exclude='*.trs' --exclude='autom4te.cache' --exclude='config.status' --exclude='config.log' \
       "$REPO"/ "$DIR"/ 
 cd "$DIR"
 # never reuse configured state from the in-tree build
